@@ -274,7 +274,19 @@ func c03Enumerate(sh *evidence.Shard) {
 	// --- TCP: HTTP ------------------------------------------------------------------------------------
 	reqLines := []string{"GET / HTTP/1.1", "GET /", "GET", "get / HTTP/9.9", "CONNECT a:1 HTTP/1.1", "GET http://h.example/ HTTP/1.1", "POST /\x00 HTTP/1.0"}
 	hosts := []string{"", "Host: x.example", "Host: x.example:80", "Host: [::1]:80", "Host: [::1", "Host: a:b:c", "Host: ", "Host: " + strings.Repeat("h", 300), "Host: x\r\nHost: y"}
-	p = r.Part("Sniffer.TCP/http", map[string]any{"request_line": reqLines, "host_header": "none, name, name:port, [v6]:port, unclosed bracket, a:b:c, empty, 300 bytes, duplicate", "line_end": "CRLF, LF",
+	// dimension "name part of the Host value": empty / root dot only / fully qualified (trailing dot) / brackets
+	// around nothing, each without a port, with an empty port and with a port - the Host value is non-empty
+	// but what is left after splitting off the port is a boundary name; added after the independently seeded
+	// change C03-9 (a trailing-dot normaliser indexed the last byte of the empty name left by "Host: :8080")
+	for _, name := range []string{"", ".", "x.example.", "[]"} {
+		for _, port := range []string{"", ":", ":8080"} {
+			if name+port != "" {
+				hosts = append(hosts, "Host: "+name+port)
+			}
+		}
+	}
+	p = r.Part("Sniffer.TCP/http", map[string]any{"request_line": reqLines, "host_header": "none, name, name:port, [v6]:port, unclosed bracket, a:b:c, empty, 300 bytes, duplicate",
+		"host_name_part": "{empty, '.', 'x.example.', '[]'} x {no port, ':', ':8080'} (port-only, root-dot and fully qualified spellings)", "line_end": "CRLF, LF",
 		"terminator": "present, absent", "request_addr": []string{addr, "noport", "", "[::1]:443"}, "truncation": "every length", "delivery": "whole; byte-at-a-time for the full request"}, nil)
 	for _, rl := range reqLines {
 		for _, h := range hosts {
